@@ -163,6 +163,72 @@ fn check_layout(toks: &[Tok], fillers: &[usize], menu: &[(&'static str, FClass)]
     false
 }
 
+// All layouts of a token sequence with at most `deviations` non-default gaps.
+fn explore(toks: &[Tok], deviations: usize, menu: &[(&'static str, FClass)]) {
+    let n = toks.len();
+    let mut fillers = vec![0usize; n + 1];
+    // depth 0
+    check_layout(toks, &fillers, menu);
+    // depth 1 and 2: all choices of gaps and non-default fillers
+    let mut nstates = 0u64;
+    for g1 in 0..=n {
+        for f1 in 1..menu.len() {
+            if !applicable(toks, g1, f1, menu) {
+                continue;
+            }
+            fillers[g1] = f1;
+            count!("transitions");
+            check_layout(toks, &fillers, menu);
+            nstates += 1;
+            if deviations >= 2 {
+                for g2 in g1 + 1..=n {
+                    for f2 in 1..menu.len() {
+                        if !applicable(toks, g2, f2, menu) {
+                            continue;
+                        }
+                        fillers[g2] = f2;
+                        // reached from two predecessors (either gap edited last)
+                        count!("transitions", 2);
+                        check_layout(toks, &fillers, menu);
+                        nstates += 1;
+                    }
+                    fillers[g2] = 0;
+                }
+            }
+        }
+        fillers[g1] = 0;
+    }
+    if nstates > 0 {
+        count!("nontrivial");
+    }
+}
+
+// The separation rule is lexical: it must hold between any two tokens, grammatical or not. Every
+// sequence of two or three token kinds (28 kinds), with the same deviation-bounded layouts.
+fn token_layout_sweep(min_len: usize, max_len: usize, deviations: usize) -> Sweep {
+    let seqs = crate::enumerate::Seqs::with_min(crate::model::tok::ALL28.len(), min_len, max_len);
+    let s2 = seqs.clone();
+    let menu = menu();
+    let mut buf = vec![];
+    Sweep::new(
+        &format!("layouts of all token sequences of {min_len}..{max_len} kinds, {deviations} deviation(s)"),
+        seqs.count(),
+        move |idx| {
+            seqs.unrank(idx, &mut buf);
+            let toks: Vec<Tok> = buf.iter().map(|i| Tok::new(crate::model::tok::ALL28[*i])).collect();
+            count!("evaluations");
+            count!("token_sequences");
+            explore(&toks, deviations, &menu);
+        },
+        move |idx| {
+            let mut b = vec![];
+            s2.unrank(idx, &mut b);
+            let toks: Vec<Tok> = b.iter().map(|i| Tok::new(crate::model::tok::ALL28[*i])).collect();
+            crate::model::tok::layout(&toks).0
+        },
+    )
+}
+
 fn layout_sweep(name: &str, min_len: usize, max_len: usize, deviations: usize) -> Sweep {
     layout_sweep_over(name, Grammar::load(), min_len, max_len, deviations)
 }
@@ -182,41 +248,7 @@ fn layout_sweep_over(name: &str, g: Grammar, min_len: usize, max_len: usize, dev
             let n = toks.len();
             count!("evaluations");
             count!("sentences");
-            let mut fillers = vec![0usize; n + 1];
-            // depth 0
-            check_layout(&toks, &fillers, &menu);
-            // depth 1 and 2: all choices of gaps and non-default fillers
-            let mut nstates = 0u64;
-            for g1 in 0..=n {
-                for f1 in 1..menu.len() {
-                    if !applicable(&toks, g1, f1, &menu) {
-                        continue;
-                    }
-                    fillers[g1] = f1;
-                    count!("transitions");
-                    check_layout(&toks, &fillers, &menu);
-                    nstates += 1;
-                    if deviations >= 2 {
-                        for g2 in g1 + 1..=n {
-                            for f2 in 1..menu.len() {
-                                if !applicable(&toks, g2, f2, &menu) {
-                                    continue;
-                                }
-                                fillers[g2] = f2;
-                                // reached from two predecessors (either gap edited last)
-                                count!("transitions", 2);
-                                check_layout(&toks, &fillers, &menu);
-                                nstates += 1;
-                            }
-                            fillers[g2] = 0;
-                        }
-                    }
-                }
-                fillers[g1] = 0;
-            }
-            if nstates > 0 {
-                count!("nontrivial");
-            }
+            explore(&toks, deviations, &menu);
             // `;` <-> separating line break: same tokens up to the terminator flavour, same tree.
             for (p, t) in toks.iter().enumerate() {
                 if t.k != K::Semicolon || p == 0 || p + 1 >= n {
@@ -292,12 +324,13 @@ impl Prop for C10 {
                 tier.pick(11, 15),
                 1,
             ),
+            token_layout_sweep(2, 3, 2),
         ]
     }
     fn evidence(&self, tier: Tier) -> EvidenceSpec {
         EvidenceSpec {
             level: "model_checking",
-            rule: "states are layouts (sentence of grammar.y over the full 28-terminal alphabet, vector of gap fillers); transitions replace one gap's filler from a 17-entry menu (spaces, tabs, CR, line breaks single/multiple/padded/CRLF, comments empty / ASCII / ending in 2- and 4-byte characters / containing code, end-of-file comments); every state with at most d non-default gaps is visited and the real token stream is compared with the stream predicted by the rule of C10; every `;` between an ender and a starter is additionally swapped for 4 separating fillers and the parse trees compared (also on all sentences of a definition-group sub-grammar up to 11/15 tokens, where most `;` live). Plus every string of at most k fragments over the 12-fragment layout alphabet against the reference lexer. evaluations = strings + sentences; non-trivial = sentences with at least one applicable deviation, strings with at least two fragments".to_owned(),
+            rule: "states are layouts (sentence of grammar.y over the full 28-terminal alphabet, vector of gap fillers); transitions replace one gap's filler from a 17-entry menu (spaces, tabs, CR, line breaks single/multiple/padded/CRLF, comments empty / ASCII / ending in 2- and 4-byte characters / containing code, end-of-file comments); every state with at most d non-default gaps is visited and the real token stream is compared with the stream predicted by the rule of C10; every `;` between an ender and a starter is additionally swapped for 4 separating fillers and the parse trees compared (also on all sentences of a definition-group sub-grammar up to 11/15 tokens, where most `;` live). The separation rule is lexical, so the same layouts (2 deviations) are also explored for every sequence of two and three token kinds, grammatical or not (22 736 sequences). Plus every string of at most k fragments over the 12-fragment layout alphabet against the reference lexer. evaluations = strings + sentences; non-trivial = sentences with at least one applicable deviation, strings with at least two fragments".to_owned(),
             assumptions: vec![
                 "ENDERS = identifier, literal, type int bool true false, ) } ;  STARTERS = identifier, literal, type int bool true false, if ( { ;  (written out from the property text)".to_owned(),
                 "line breaks adjacent to an explicit `;` do separate (the `;` counts as both an ender and a starter)".to_owned(),
@@ -309,7 +342,7 @@ impl Prop for C10 {
             traces: Some("traces_validated"),
             exhaustive: true,
             bounds: json!({"sigma_lay_max_fragments": tier.pick(6, 7), "one_deviation_max_tokens": tier.pick(5, 6), "two_deviations_max_tokens": tier.pick(4, 5)}),
-            minimums: vec![("states", 100_000), ("comment_and_break_layouts", 1_000), ("terminator_swaps", 1_000), ("ok_tokens", 10_000)],
+            minimums: vec![("states", 100_000), ("comment_and_break_layouts", 1_000), ("terminator_swaps", 1_000), ("ok_tokens", 10_000), ("token_sequences", 22_000)],
         }
     }
 }
